@@ -72,6 +72,13 @@ func main() {
 			os.Exit(2)
 		}
 		debugWriters(p, os.Args[2], os.Args[3])
+	case "errsites":
+		p, err := Load(quickPatterns, nil)
+		if err != nil {
+			fmt.Fprintln(os.Stderr, err)
+			os.Exit(2)
+		}
+		debugErrSites(p)
 	case "selftest":
 		os.Exit(runSelfTest(os.Args[2:]))
 	default:
